@@ -33,8 +33,14 @@ class Atoms:
         return self.ids[name]
 
 
+import re as _re
+_ADDR = _re.compile(r'<(?:generator object|function) [^<>]*(?:<[^<>]*>[^<>]*)* at 0x[0-9a-fA-F]+>|0x[0-9a-fA-F]+')
+
+
 def const_atom(c):
-    return 'const:%s:%r' % (type(c).__name__, c)
+    # never compare memory addresses: the default repr of a generator / function object that an f-string formatted is canonicalised,
+    # wherever the string sits (directly, or inside a constant tuple)
+    return 'const:%s:%s' % (type(c).__name__, _ADDR.sub('0x?', repr(c)))
 
 
 def code_consts(code):
@@ -129,7 +135,7 @@ def to_model(code, atoms):
         elif n in ('POP_JUMP_IF_NONE', 'POP_JUMP_IF_NOT_NONE'): emit(i, ('jumpIfNone', n.endswith('IF_NONE'), ('@', i.argval)))
         elif n == 'JUMP_FORWARD': emit(i, ('jump', ('@', i.argval)))
         elif n == 'JUMP_BACKWARD':
-            tgt = [j for j in ins if j.offset == i.argval]
+            tgt = [j for j in ins if j.offset >= i.argval and j.opname != 'EXTENDED_ARG'][:1]      # a target with EXTENDED_ARG prefixes starts at the first prefix
             if tgt and tgt[0].opname == 'FOR_ITER': emit(i, ('jumpBack', ('@', i.argval)))
             else: emit(i, ('unsupported', 'JUMP_BACKWARD to ' + (tgt[0].opname if tgt else '?')))
         elif n == 'GET_ITER': emit(i, ('nop',))
@@ -641,9 +647,63 @@ def compile_program(src):
 CACHE_STATS = {'same': 0, 'different': 0}
 
 
+DECODE_STATS = {'agree': 0, 'skipped': 0, 'mismatch': []}
+
+
+def decoding_tie(code):
+    """Decompiler.get_instructions (Pony's own decoding of co_code: opcode, EXTENDED_ARG prefixes, argument, jump target) against
+    dis.get_instructions of the running CPython, on the same code object"""
+    Probe = DECODE_STATS.get('probe')
+    if Probe is None:
+        from pony.orm import decompiling
+        class Probe(decompiling.Decompiler):
+            def analyze_jumps(self): pass
+            def decompile(self): self.stack.append(None)
+        DECODE_STATS['probe'] = Probe
+    try:
+        d = Probe(code)
+    except Exception:
+        DECODE_STATS['skipped'] += 1; return
+    ins = [i for i in dis.get_instructions(code) if i.opname != 'CACHE']
+    by_off = {}; k = 0
+    while k < len(ins):                      # an instruction starts at its first EXTENDED_ARG prefix
+        start = ins[k].offset
+        while ins[k].opname == 'EXTENDED_ARG': k += 1
+        by_off[start] = (ins[k], ins[k + 1] if k + 1 < len(ins) else None); k += 1
+    nxt = lambda i: [by_off[i.offset][1]] if False else [j for j in ins if j.offset > i.offset and j.opname != 'EXTENDED_ARG'][:1]
+    for pos, next_pos, opname, arg in d.instructions:
+        if pos not in by_off: DECODE_STATS['mismatch'].append((code.co_name, pos, opname, 'no instruction starts here')); return
+        i, _ = by_off[pos]
+        real = i.opname.replace('+', '_')
+        if opname != real:
+            # the decompiler's own merge of POP_JUMP_IF_x + JUMP_BACKWARD into POP_JUMP_BACKWARD_IF_y: the argument is the backward target
+            follow = nxt(i)
+            if opname.startswith('POP_JUMP_BACKWARD_IF_') and real.startswith('POP_JUMP_IF_') and follow and follow[0].opname == 'JUMP_BACKWARD':
+                want = follow[0].argval
+                # ... which may itself start at EXTENDED_ARG prefixes
+                if arg and arg[0] != want and not any(j.offset == arg[0] and j.opname == 'EXTENDED_ARG' for j in ins) :
+                    DECODE_STATS['mismatch'].append((code.co_name, pos, opname, arg, want)); return
+                continue
+            DECODE_STATS['mismatch'].append((code.co_name, pos, opname, real)); return
+        if not arg: continue
+        if 'JUMP' in real or real == 'FOR_ITER': want = i.argval
+        elif real in ('LOAD_CONST', 'RETURN_CONST', 'KW_NAMES'): want = i.argval
+        elif real in ('LOAD_GLOBAL', 'LOAD_ATTR', 'LOAD_NAME', 'LOAD_FAST', 'STORE_FAST', 'LOAD_DEREF', 'STORE_DEREF', 'LOAD_CLOSURE', 'LOAD_FAST_CHECK', 'STORE_ATTR', 'STORE_GLOBAL', 'LOAD_METHOD', 'LOAD_FAST_AND_CLEAR', 'MAKE_CELL'): want = i.argval
+        elif real in ('COMPARE_OP',): want = i.argval
+        elif real in ('IS_OP', 'CONTAINS_OP', 'BINARY_OP', 'CALL', 'BUILD_TUPLE', 'BUILD_LIST', 'BUILD_SET', 'BUILD_MAP', 'BUILD_STRING', 'BUILD_SLICE', 'BUILD_CONST_KEY_MAP',
+                      'FORMAT_VALUE', 'COPY', 'SWAP', 'UNPACK_SEQUENCE', 'MAKE_FUNCTION', 'LIST_APPEND', 'LIST_EXTEND', 'CALL_FUNCTION_EX', 'YIELD_VALUE', 'RESUME', 'CALL_INTRINSIC_1'): want = i.arg
+        else: continue
+        got = arg[0]
+        if isinstance(want, types.CodeType) or isinstance(got, types.CodeType): ok = got is want
+        else: ok = (got == want) and (type(got) is type(want) or not isinstance(want, (bool, int, float)))
+        if not ok: DECODE_STATS['mismatch'].append((code.co_name, pos, opname, repr(got)[:60], repr(want)[:60])); return
+    DECODE_STATS['agree'] += 1
+
+
 def decompile_real(code):
     """the real entry point, through its cache (utils.get_codeobject_id pins the code object, so the key cannot be reused)"""
     from pony.orm import decompiling
+    decoding_tie(code)
     try:
         a, names, cells = decompiling.decompile(code)
         a2 = decompiling.decompile(code)[0]
@@ -775,6 +835,7 @@ def judge_tree(p, replies, limit=256):
 
 
 def request_of(p):
+    if p.get('nodriver'): return {'op': 'check', 'code': [['unsupported', 'decision tree too large: execution oracle only']], 'ast': None}
     return {'op': 'check', 'code': p['model_code'], 'ast': p['model_ast'], 'src_ast': p.get('model_src_ast')}
 
 
@@ -1229,6 +1290,7 @@ def rand_program1(rng):
 
 
 def render_prog(pr):
+    if 'src' in pr: return pr['src']          # a program given as text (long programs), with a fixed key and possibly without the driver
     if 'lam' in pr: return 'lambda %s: (%s)' % (pr.get('params', ''), render(pr['lam']))
     parts = []
     for c in pr['clauses']:
@@ -1245,6 +1307,7 @@ def prog_of(kind, e):
 
 
 def prog_slots(pr):
+    if 'src' in pr: return []
     if 'lam' in pr: return [('lam', pr['lam'])]
     out = []
     for c in pr['clauses']:
@@ -1402,7 +1465,9 @@ def run_chunk(args):
     prepared = []
     for src, pr in programs:
         try:
-            prepared.append((src, pr, prepare(src)))
+            pp = prepare(src)
+            if isinstance(pr, dict) and pr.get('nodriver'): pp['nodriver'] = True
+            prepared.append((src, pr, pp))
         except Exception as e:
             out['errors'].append('%s: prepare failed: %s: %s' % (src, type(e).__name__, e))
     replies = [{}] * len(prepared)
@@ -1427,7 +1492,7 @@ def run_chunk(args):
         except Exception as e:
             out['errors'].append('%s: judge failed: %s: %s' % (src, type(e).__name__, e)); continue
         slots = [] if isinstance(pr, str) else prog_slots(pr)
-        simple = not isinstance(pr, str) and ('lam' in pr or (len(pr['clauses']) == 1 and pr['clauses'][0]['iter'] is None and pr['clauses'][0]['target'] == 'x'
+        simple = not isinstance(pr, str) and 'src' not in pr and ('lam' in pr or (len(pr['clauses']) == 1 and pr['clauses'][0]['iter'] is None and pr['clauses'][0]['target'] == 'x'
                                                 and (not pr['clauses'][0]['conds'] or (len(pr['clauses'][0]['conds']) == 1 and pr['elt'] == ('a', 'x')))))
         position = ('lam' if 'lam' in pr else 'cond' if pr['clauses'][0]['conds'] else 'elt') if simple else 'program'
         count('status:%s:%s' % (position, j['status']))
@@ -1448,6 +1513,8 @@ def run_chunk(args):
                     kind = position; e = pr['lam'] if kind == 'lam' else (pr['clauses'][0]['conds'][0] if kind == 'cond' else pr['elt'])
                     se, sj = shrink(kind, e)
                     if sj is not None: found.append((violation_key(kind, se), wrap(kind, render(se)), sj))
+                elif isinstance(pr, dict) and pr.get('fixed_key'):
+                    pass                        # long programs are not shrunk: their length is what makes them fail
                 elif slots:
                     for kind, e in slots:          # a slot that fails on its own in the standard position
                         if violates(kind, e) is None: continue
@@ -1464,7 +1531,7 @@ def run_chunk(args):
                             if not found: found.append((key, render_prog(sp), sj))
             except Exception as ex:
                 out['errors'].append('%s: shrink failed: %s: %s' % (src, type(ex).__name__, ex))
-            if not found: found = [('program:' + src, src, j)]
+            if not found: found = [((pr.get('fixed_key') if isinstance(pr, dict) else None) or 'program:' + src, src, j)]
             for key, msrc, mj in found:
                 out['violations'].append({'key': key, 'src': src, 'minimal': msrc, 'decompiled': mj['decompiled'], 'assign': mj['violation']['assign'],
                                           'original_outcome': mj['violation']['original'], 'decompiled_outcome': mj['violation']['decompiled']})
@@ -1474,6 +1541,10 @@ def run_chunk(args):
         if j['status'].startswith(('checker-incomplete', 'unsupported-by-checker', 'decompiled-ast-not-compilable')) and len([x for x in out['examples'] if x['status'] == j['status']]) < 2:
             out['examples'].append({'src': src, 'status': j['status'], 'decompiled': j['decompiled'], 'why': p['ast_unsupported'] or j.get('recompile_error')})
     count('ast-cache:second-decompile-returns-the-same-tree', CACHE_STATS['same']); CACHE_STATS['same'] = 0
+    count('decoding-tie:get_instructions-agrees-with-dis', DECODE_STATS['agree']); count('decoding-tie:skipped (get_instructions raised)', DECODE_STATS['skipped'])
+    for m in DECODE_STATS['mismatch'][:3]:
+        out['divergences'].append({'src': 'Decompiler.get_instructions vs dis.get_instructions: %r' % (m,), 'assign': [], 'model': 'dis: ' + repr(m[-1]), 'real': 'get_instructions: ' + repr(m[-2])})
+    DECODE_STATS['agree'] = 0; DECODE_STATS['skipped'] = 0; DECODE_STATS['mismatch'] = []
     if CACHE_STATS['different']:
         out['errors'].append('decompile() returned a different tree for the same code object on the second call (%d times)' % CACHE_STATS['different']); CACHE_STATS['different'] = 0
     return out
@@ -1569,6 +1640,12 @@ def run(ctx):
                     programs.append(one_clause(('a', 'x'), [z, E])); programs.append(one_clause(('a', 'x'), [E, z]))
                     programs.append(one_clause(E, [z])); programs.append(one_clause(('and', z, E), [])); programs.append(prog_of('lam', ('and', z, E)))
                     n_ife += 5
+        # ... a compound and/or body (a clause inside the body jumps to the end of the if-expression) under two more operators
+        shapes.__defaults__[0].clear()
+        for e in enumerate_exprs(5, 3):
+            if 'and' not in repr(e) or 'or' not in repr(e): continue
+            for E in (('ife', t, e, h), ('ife', t, g, e)):
+                programs.append(prog_of('cond', ('or', z, ('and', E, ('a', 'w'))))); programs.append(prog_of('cond', ('and', z, ('or', E, ('a', 'w'))))); n_ife += 2
         # ... with an `is None` / `is not None` test inside the test / body / else-branch
         for test in ('isnone', 'isnotnone'):
             for inner in (('a', 'b'), ('attr', ('a', 'b')), ('and', ('a', 'b'), ('a', 'c'))):
@@ -1624,10 +1701,36 @@ def run(ctx):
         for kind in ('cond', 'elt', 'lam'): programs.append(prog_of(kind, ('lamarg1', body)))
     for kind in ('cond', 'elt', 'lam'): programs.append(prog_of(kind, ('lamarg2', ('eq', ('attr', ('a', 'w')), ('sub', ('a', 'v'), ('a', 'a'))))))
     programs.append({'lam': ('eq', ('attr', ('a', 'p')), ('sub', ('a', 'q'), ('a', 'a'))), 'params': 'p, q'})
+    # long programs: instruction arguments and jump distances above 255 need EXTENDED_ARG prefixes (conditions with 18-40 terms, long
+    # and/or chains with if-expressions inside, > 255 constants, >= 128 names, long argument lists), as generators and lambdas
+    def long_programs(sizes):
+        T = lambda i: '(n%d %s m%d)' % (i, ('==', '<', '!=', '>=')[i % 4], i)
+        for n in sizes:
+            terms = [T(i) for i in range(n)]
+            fams = {'and-chain': ' and '.join(terms), 'or-chain': ' or '.join(terms),
+                    'and-chain-ifexp': ' and '.join(terms[:n // 2] + ['(p if q else r)'] + terms[n // 2:] + ['(s if (t or u) else v)']),
+                    'or-chain-ifexp': ' or '.join(terms[:n // 2] + ['(p if q else r)'] + terms[n // 2:]),
+                    'not-and-chain': 'not (%s)' % ' and '.join(terms),
+                    'and-of-calls': ' and '.join('f(n%d, k=m%d).p[n%d]' % (i, i, i) for i in range(n))}
+            mixed = {'or-of-and-pairs': ' or '.join('(n%d and m%d)' % (i, i) for i in range(n)), 'and-of-or-pairs': ' and '.join('(n%d or m%d)' % (i, i) for i in range(n)),
+                     'or-of-ifexp': ' or '.join('(n%d if m%d else k%d)' % (i, i, i) for i in range(n // 2)),
+                     'ifexp-long-test': '(p if (%s) else q) or r' % ' and '.join(terms)}
+            for name, e in list(fams.items()) + list(mixed.items()):
+                for kind, src in (('cond', '(x for x in T if (%s))' % e), ('elt', '((%s) for x in T)' % e), ('lam', 'lambda: (%s)' % e), ('cond2', '(x for x in T if z for u in x.q if (%s))' % e)):
+                    if not ctx.thorough and kind in ('elt', 'cond2') and name != 'or-chain': continue
+                    yield {'src': src, 'fixed_key': 'long:%s:%s:%d' % (kind, name, n), 'nodriver': name in mixed}
+        for m, name, e in ((300, 'constants', ' + '.join(['x.p'] + [str(i) for i in range(300)])), (140, 'names', ' + '.join('g%d' % i for i in range(140))),
+                           (140, 'arguments', 'f(%s)' % ', '.join('g%d' % i for i in range(140))), (100, 'keyword-arguments', 'f(%s)' % ', '.join('k%d=g%d' % (i, i) for i in range(100))),
+                           (140, 'attributes', ' + '.join('x.a%d' % i for i in range(140)))):
+            for kind, src in (('cond', '(x for x in T if ((%s) == y) or z)' % e), ('elt', '((%s) for x in T)' % e), ('lam', 'lambda x: (%s)' % e)):
+                yield {'src': src, 'fixed_key': 'long:%s:%s:%d' % (kind, name, m), 'nodriver': False}
+    longs = list(long_programs(ctx.scale((24,), (18, 28, 40)))); n_long = len(longs)
+    step = max(1, len(programs) // (n_long + 1))
+    for k, pr in enumerate(longs): programs.insert(min(len(programs), (k + 1) * step + k), pr)      # spread over the chunks: each costs about a second
     n_enum = len(programs)
     for _ in range(ctx.scale(200, 6000)):
         programs.append(rand_program(ctx.rng))
-    ctx.extra['enumerated'] = {'full_grammar_up_to_size': full_k, 'control_flow_grammar_up_to_size': cf_k, 'none_test_family_over_control_flow_up_to_size': none_k, 'programs_in_none_test_family': n_none, 'ifexp_family_over_control_flow_up_to_size': ife_k, 'programs_in_ifexp_family': n_ife, 'constant_operand_grammar_up_to_size': lit_k, 'programs_with_constant_operands': n_lit, 'programs_enumerated': n_enum, 'random_programs': len(programs) - n_enum}
+    ctx.extra['enumerated'] = {'long_programs_with_EXTENDED_ARG': n_long, 'full_grammar_up_to_size': full_k, 'control_flow_grammar_up_to_size': cf_k, 'none_test_family_over_control_flow_up_to_size': none_k, 'programs_in_none_test_family': n_none, 'ifexp_family_over_control_flow_up_to_size': ife_k, 'programs_in_ifexp_family': n_ife, 'constant_operand_grammar_up_to_size': lit_k, 'programs_with_constant_operands': n_lit, 'programs_enumerated': n_enum, 'random_programs': len(programs) - n_enum}
     size = 4000 if interpreted else max(100, len(programs) // 96)
     work = [(cmd, LEAN, c) for c in chunks(programs, size)]
     procs = 4 if interpreted else 16
